@@ -35,6 +35,7 @@ import sys
 import tempfile
 from urllib.parse import urlparse
 
+import bytecases
 import core
 import impl
 import pyval
@@ -44,15 +45,20 @@ REQUIRED_THEOREMS = [
     "C17_content_length", "C17_do_post_framing", "C17_cgi_length", "C17_cgi_single_byte", "C17_body_bytes",
     "C17_bytes_not_chars", "C17_reassembly_client", "C17_reassembly_client_empty",
     "C17_server_prefix", "C17_reassembly_server", "C17_chunking_independent", "C17_chunkwise_not_independent",
-    "C17_target", "C17_scheme",
+    "C17_target", "C17_scheme", "C17_decode_exact", "C17_decode_exact_client", "C17_bom_kept",
     "C17_gen_lenAfterToBytes", "C17_gen_serverDecodesAfterJoin", "C17_gen_clientDecodesAfterJoin", "C17_gen_maxChunk",
     "C17_gen_contentTypeFromConfig", "C17_gen_schemes", "C17_gen_handlerFromUrl", "C17_gen_targetForwarded",
+    "C17_gen_fromBytesCodec", "C17_gen_toBytesCodec",
 ]
 
 MAXCHUNK = 10 * 1024 * 1024
 
 TEXTS = ["", "{}", "é", "日本語", "a\U0001f600b", '{"jsonrpc": "2.0", "id": 1, "method": "echo", "params": ["é"]}',
-         "x" * 40, "é" * 7, "\u00e9\u0301", "\x00", '{"k": "\u20ac"}']
+         "x" * 40, "é" * 7, "\u00e9\u0301", "\x00", '{"k": "\u20ac"}',
+         # characters a decoder may be tempted to drop or rewrite: a leading / inner / trailing U+FEFF (the UTF-8 signature), U+FFFE,
+         # NUL, CR LF, U+2028, a non-character, the replacement character itself
+         "\ufeff", "\ufeff{}", "\ufeff\ufeff{}", "a\ufeffb", "{}\ufeff", '\ufeff{"jsonrpc": "2.0", "id": 1, "method": "echo", "params": []}',
+         "\ufffe{}", "\x00{}\x00", "\r\n{}\r\n", "\u2028\uffff", "\ufffd?"]
 
 CGI_ENCODINGS = ["UTF-8", "utf-8", "utf8", "latin-1", "iso-8859-1", "ascii", "utf-16", "utf-16-le", "cp1252", "no-such-codec"]
 
@@ -527,7 +533,11 @@ def _run(ctx, env):
                 "http.client connection for http/https/unix+http; raw TCP and Unix-socket peers for a sample) over random "
                 "paths/queries (percent-escapes in both cases, dot segments, repeated/trailing slashes, bare '?', several-KB "
                 "queries) and every scheme; distinct_nontrivial = chunkings with a cut inside a multi-byte character, "
-                "non-ASCII frames, distinct (scheme, path, query) targets")
+                "non-ASCII frames, distinct (scheme, path, query) targets; texts with a leading / inner / trailing U+FEFF, U+FFFE, NUL, "
+                "CR LF (class:text/…) through every reassembly path; bodies as bytes (harness/bytecases.py: BOM prefixes UTF-8/16/32, UTF-16/32 "
+                "without mark, invalid / overlong / truncated UTF-8, surrogates in UTF-8, NUL, latin-1; class:bytes/<variant>) through do_POST "
+                "with an echoing dispatcher and through JSONTarget / parse_response: what is handed on is the strict UTF-8 decoding of the "
+                "bytes read, all of it, and bytes without decoding are never handed on")
     lines, impl_out = [], []
 
     def boundary_inside_char(chunks):
@@ -539,6 +549,14 @@ def _run(ctx, env):
             except UnicodeDecodeError:
                 return True
         return False
+
+    def note_text_class(text, side):
+        if text.startswith("\ufeff"):
+            ctx.hist["class:text/leading-U+FEFF/" + side] += 1
+        elif "\ufeff" in text:
+            ctx.hist["class:text/inner-U+FEFF/" + side] += 1
+        if "\x00" in text:
+            ctx.hist["class:text/NUL/" + side] += 1
 
     def client_case(text, chunks, gz=False):
         body = text.encode("utf-8")
@@ -569,9 +587,38 @@ def _run(ctx, env):
             ctx.violate({"body_hex": body.hex(), "chunks": [c.hex() for c in parts], "gzip": gz, "via": "parse_response"},
                         "parse_response gave %r %r, whole decoding is %r" % (k, v, text), key="client-parse-response")
         inside = boundary_inside_char(chunks)
+        note_text_class(text, "client")
         ctx.count(case_repr={"client_body": text[:40], "chunks": [c.hex() for c in chunks][:8], "gzip": gz},
                   nontrivial_key=("c", body.hex()[:40], tuple(len(c) for c in chunks)) if inside else None,
                   kind="client/%s/%s" % ("gzip" if gz else "identity", "cut-in-char" if inside else "clean"))
+
+    def client_bytes_case(b, chunks, vname):
+        """Response bytes that are not (or not only) the encoding of a JSON text, through JSONTarget and the real parse_response:
+        when the bytes have a UTF-8 decoding the text returned is that decoding, all of it; otherwise no text is made up."""
+        want = bytecases.strict_text(b)
+        for via in ("JSONTarget", "parse_response"):
+            if via == "JSONTarget":
+                tgt = J.JSONTarget()
+
+                def feed_all():
+                    for c in chunks:
+                        tgt.feed(c)
+                    return tgt.close()
+                k, out = impl.outcome(feed_all)
+            else:
+                k, out = impl.outcome(J.Transport(cfgs[0]).parse_response, ChunkResponse(chunks, {}))
+            m = None
+            if want is not None and (k != "ok" or out != want):
+                m = "client reassembly %s %r differs from the decoding of the whole %r" % (k, out, want)
+            elif want is None and k == "ok" and isinstance(out, str):
+                m = "the client made the text %r of bytes that have no UTF-8 decoding (%s)" % (out[:60], b[:24].hex())
+            if m:
+                ctx.violate({"body_hex": b.hex(), "chunks": [c.hex() for c in chunks], "via": via, "bytes_variant": vname}, m,
+                            key="client-reassembly" if via == "JSONTarget" else "client-parse-response")
+            if via == "JSONTarget":
+                lines.append("wclient " + " ".join(hx(c) for c in chunks))
+                impl_out.append("raised " + type(out).__name__ if k != "ok" else (("text " + hs(out)) if isinstance(out, str) else ("raw " + hx(out))))
+        ctx.count(case_repr={"client_bytes": b[:40].hex(), "variant": vname}, nontrivial_key=("cb", vname, len(chunks)), kind="client/bytes/" + vname)
 
     def server_case(text, sizes, cfg, extra=b""):
         body = text.encode("utf-8")
@@ -612,6 +659,7 @@ def _run(ctx, env):
             b = b[g:]
             rem -= g
         inside = boundary_inside_char(chunks) if complete else False
+        note_text_class(text, "server")
         ctx.count(case_repr={"server_body": text[:40], "reads": list(sizes)[:10], "status": status},
                   nontrivial_key=("s", body.hex()[:40], tuple(sizes)) if inside else None,
                   kind="server/%s/%s" % ("complete" if complete else "short", "cut-in-char" if inside else "clean"))
@@ -624,6 +672,20 @@ def _run(ctx, env):
         m = reply_frame_monitor(hlines, written, cfg)
         if m is None and status not in ([200], [500]):
             m = "status %r" % (status,)
+        # "the decoded text equals the decoding of the whole": whatever text reaches the dispatcher is the strict UTF-8 decoding of the
+        # bytes that were read — all of them, nothing dropped or replaced — and bytes that have no decoding never reach it
+        if isinstance(declared, int):
+            sent, complete = delivered(stream, sizes, declared)
+            want = bytecases.strict_text(sent)
+            if got and want is None:
+                ctx.violate(case, "the dispatcher was handed %r although the %d bytes read (%s) are not UTF-8: they have no decoding"
+                            % (got[0][:60], len(sent), sent[:24].hex()), key="server-decoding-invented")
+            elif got and got[0] != want:
+                ctx.violate(case, "the dispatcher was handed %r, the decoding of the bytes sent (%s) is %r" % (got[0][:60], sent[:24].hex(), want[:60]),
+                            key="server-decoding-differs")
+            elif not got and want is not None and complete and status == [500]:
+                ctx.violate(case, "a complete body with the UTF-8 decoding %r was refused (status 500) before the dispatcher saw it" % (want[:60],),
+                            key="server-decoding-refused")
         if m is None and got and status == [200]:
             want = {"echo": got[0], "none": "", "empty": ""}.get(spec) if isinstance(spec, str) else spec[1]
             if want is not None and written != want.encode("utf-8"):
@@ -729,6 +791,15 @@ def _run(ctx, env):
         post_case(b"{}", [2], cfg, "missing", "echo")              # no Content-Length header -> int(None) raises -> 500
         post_case(b"{}", [2], cfg, "abc", "echo")                  # not an integer -> 500
         post_case(b"", [], cfg, 0, "echo")                         # empty body: dispatcher gets ""
+    # bodies as bytes (harness/bytecases.py): BOM prefixes, UTF-16 / UTF-32, invalid / overlong / truncated UTF-8, surrogates in UTF-8,
+    # NUL, latin-1 — through do_POST (echoing dispatcher: what it is handed is what the reply carries) in one read and in random
+    # cuts, and through the client's JSONTarget / parse_response
+    for bname, req in bytecases.BASE_REQUESTS[:(len(bytecases.BASE_REQUESTS) if ctx.thorough else 2)]:
+        for vname, b in bytecases.byte_variants(req):
+            ctx.hist["class:bytes/%s" % vname] += 1
+            post_case(b, [len(b)], cfgs[0], len(b), "echo")
+            post_case(b, [len(c) for c in random_cuts(prng, b)] or [1], prng.choice(cfgs), len(b), prng.choice(["echo", "echo", "none", "raise"]))
+            client_bytes_case(b, random_cuts(prng, b) if prng.random() < 0.7 else [b], vname)
     for _ in range(ctx.budget(80, 1500)):
         text = "".join(prng.choice("ab{}\":, é日\U0001f600") for _ in range(prng.randint(0, 30)))
         b = text.encode("utf-8")
@@ -905,6 +976,19 @@ def targets(ctx, env, cfgs, lines, impl_out):
         ctx.count(kind="frame/wire-tcp", nontrivial_key=("fw", text[:20]) if len(text.encode("utf-8")) != len(text) else None)
 
 
+def delivered(stream, sizes, declared):
+    """(bytes the read loop of do_POST is given, were they the declared number) for a stream served in reads of `sizes`."""
+    total, rem, avail = 0, declared, len(stream)
+    for s in sizes:
+        g = min(s, rem, MAXCHUNK, avail)
+        if g <= 0:
+            break
+        total += g
+        rem -= g
+        avail -= g
+    return stream[:total], total == declared
+
+
 class Rec(object):
     def __init__(self):
         self.lines = []
@@ -961,6 +1045,16 @@ def replay(payload):
         m = reply_frame_monitor(hl, wr, cfg)
         if m is None and status == [200] and not isinstance(spec, str) and wr != spec[1].encode("utf-8"):
             m = "reply body %r is not the encoding of %r" % (wr[:40], spec[1][:40])
+        if m is None and isinstance(case["declared"], int):
+            sent, complete = delivered(bytes.fromhex(case["stream_hex"]), case["reads"], case["declared"])
+            want = bytecases.strict_text(sent)
+            print("bytes read", sent.hex(), "strict UTF-8 decoding", repr(want), "dispatcher was handed", got)
+            if got and want is None:
+                m = "the dispatcher was handed %r although the bytes read are not UTF-8" % (got[0][:60],)
+            elif got and got[0] != want:
+                m = "the dispatcher was handed %r, the decoding of the bytes sent is %r" % (got[0][:60], want[:60])
+            elif not got and want is not None and complete and status == [500]:
+                m = "a complete body with the UTF-8 decoding %r was refused (status 500)" % (want[:60],)
         return verdict(m)
     if via == "JSONTarget":
         tgt = J.JSONTarget()
@@ -971,13 +1065,17 @@ def replay(payload):
             return tgt.close()
         k0, out = impl.outcome(feed_all)
         print("feed/close ->", k0, repr(out))
-        want = bytes.fromhex(case["body_hex"]).decode("utf-8")
+        want = bytecases.strict_text(bytes.fromhex(case["body_hex"]))
+        if want is None:
+            return verdict("text %r made of bytes that have no UTF-8 decoding" % (out[:60],) if (k0 == "ok" and isinstance(out, str)) else None)
         return verdict(None if (k0 == "ok" and out == want) else "reassembly %s %r differs from %r" % (k0, out, want))
     if via == "parse_response":
-        want = bytes.fromhex(case["body_hex"]).decode("utf-8")
+        want = bytecases.strict_text(bytes.fromhex(case["body_hex"]))
         resp = ChunkResponse([bytes.fromhex(c) for c in case["chunks"]], {"content-encoding": "gzip"} if case.get("gzip") else {})
         k, v = impl.outcome(J.Transport(cfg).parse_response, resp)
         print("parse_response ->", k, repr(v))
+        if want is None:
+            return verdict("text %r made of bytes that have no UTF-8 decoding" % (v[:60],) if (k == "ok" and isinstance(v, str)) else None)
         return verdict(None if (k == "ok" and v == want) else "parse_response gave %s %r, whole decoding is %r" % (k, v, want))
     if via == "client send_content":
         rec = Rec()
